@@ -32,6 +32,12 @@ ASSUMPTIONS = [
 TRUSTED_EXTRA = ['numpy fancy indexing / boolean masks / argmax / argmin / unique semantics as mirrored in Model.Cluster '
                  '(compared on every case)']
 
+MIRRORS = [('enspara/cluster/kcenters.py', ['kcenters', '_kcenters_iteration']),
+           ('enspara/cluster/kmedoids.py', ['kmedoids', '_kmedoids_inputs_tree', '_kmedoids_iterations',
+                                             '_kmedoids_pam_update', '_propose_new_center_amongst', '_msq']),
+           ('enspara/cluster/hybrid.py', ['hybrid']),
+           ('enspara/cluster/util.py', ['assign_to_nearest_center', 'find_cluster_centers'])]
+
 USE_MODEL = True
 
 ENTRY_KINDS = ('kcenters', 'KCenters.fit', 'kmedoids', 'KMedoids.fit', 'pam_update', 'hybrid',
